@@ -308,6 +308,9 @@ fn do_call(env: &Env, call: Call) -> String {
     }
 }
 
+/// whether the commit a schedule starts from is durable (set by `run` for every schedule)
+static BASE_DURABLE: std::sync::atomic::AtomicBool = std::sync::atomic::AtomicBool::new(false);
+
 /// runs `first` on thread T1 parked at (point, nth) while `second` runs on T2; returns the event
 /// list, results, and the pause points T1 passed
 fn run_schedule(cfg: &Cfg, first: Call, second: Call, park: Option<(&str, usize)>, out: &mut Out) -> Vec<String> {
@@ -328,9 +331,9 @@ fn run_schedule(cfg: &Cfg, first: Call, second: Call, park: Option<(&str, usize)
         *spare.lock().unwrap() = Some((rt, 1));
         // the commit the schedule starts from is non-durable or durable in turn: a reader that
         // registers on it is tracked differently in the two cases
-        let nth = out.counters.get("schedule_bases").copied().unwrap_or(0);
-        out.count("schedule_bases");
-        let _ = do_call(&env, if nth % 2 == 0 { Call::WriteNone } else { Call::WriteImm });
+        let durable = BASE_DURABLE.load(Ordering::SeqCst);
+        out.count(if durable { "schedules_on_durable_base" } else { "schedules_on_non_durable_base" });
+        let _ = do_call(&env, if durable { Call::WriteImm } else { Call::WriteNone });
     }
     events.lock().unwrap().clear();
     if let Some((p, n)) = park {
@@ -473,8 +476,10 @@ pub fn run(args: &Args) {
     out.comment(&format!("C03 sched seed={} thorough={}", args.seed, args.thorough));
     let cfg = Cfg { page: 512, region: 65536, cache: if args.seed % 2 == 0 { 0 } else { 1 << 20 } };
     let focus = args.extra.iter().position(|a| a == "--focus").and_then(|i| args.extra.get(i + 1)).cloned();
+    let mut nth_schedule = 0u64;
     for first in CALLS {
         // discover the pause points the first call passes (no preemption)
+        BASE_DURABLE.store(false, Ordering::SeqCst);
         out.begin_case(&format!("first={first:?}"));
         let points = run_schedule(&cfg, *first, Call::Read, None, &mut out);
         let mut occ: std::collections::BTreeMap<String, usize> = std::collections::BTreeMap::new();
@@ -495,7 +500,14 @@ pub fn run(args: &Args) {
                 continue;
             }
             for (p, n) in &placements {
-                run_schedule(&cfg, *first, *second, Some((p.as_str(), *n)), &mut out);
+                // quick: the base commit is non-durable or durable in turn (which of the two a given
+                // schedule gets depends on the seed), the schedules of a parked reader on both; thorough: every schedule on both
+                let bases: Vec<bool> = if args.thorough || matches!(first, Call::Read) { vec![false, true] } else { vec![(nth_schedule + args.seed) % 2 == 1] };
+                nth_schedule += 1;
+                for durable in bases {
+                    BASE_DURABLE.store(durable, Ordering::SeqCst);
+                    run_schedule(&cfg, *first, *second, Some((p.as_str(), *n)), &mut out);
+                }
             }
         }
         out.end_case(true);
